@@ -35,7 +35,7 @@ def chk(pid, engine, technique, text, note, design):
 CHECKS = {
  "C17": chk("C17", "stdinsim",
    "deterministic simulation: seeded input texts and read(2) delivery plans with injected read errors (EIO/EINTR/EAGAIN: may surface or be retried, never a wrong line; calls continued after retryable ones) against the real read_line; oracle = split of the text at newlines, chunking independence for texts with CR; a few cases cross-checked through a real pipe into the un-hooked binary",
-   "Seeded search over (input text, how the simulated kernel splits it across read(0) calls, injected read error, script shape incl. unused results behind one or two user functions and a filtering loop on a small frame arena); every call's result is compared with the text split at '\\n'. Sampling, not proof: a clean batch is evidence that no chunking within the explored shapes loses, duplicates or reorders bytes.",
+   "Seeded search over (input text, how the simulated kernel splits it across read(0) calls, injected read error, script shape incl. unused results behind one or two user functions, a helper declared below its function's return, read_line in a loop condition and a filtering loop on a small frame arena, lines up to 2 MiB); every call's result is compared with the text split at '\\n'. Sampling, not proof: a clean batch is evidence that no chunking within the explored shapes loses, duplicates or reorders bytes.",
    "Trusts the stub of the kernel side of fd 0 (fake_libc::read: returns min(count, planned piece, remaining), then 0). CR handling and terminal line discipline are outside the statement and not generated.",
    "DESIGN.md 3.3"),
  "C16": chk("C16", "hostsim",
@@ -45,7 +45,7 @@ CHECKS = {
    "DESIGN.md 3.1"),
  "C15": chk("C15", "hostsim",
    "deterministic simulation: generated builder scripts run by the real runtime on the simulated host with injected spawn errors; reference model of the builder and of the documented limits; recorded spawn requests; a few cases cross-checked against the real OS (un-hooked binary + helper child reporting argv/env/cwd/stdin)",
-   "Seeded search over host policy / small limits / builder histories (variables, array slots, copies, functions, helpers mutating a captured builder with unused results, loops, adversarial strings) and two schedules each. Refused => the documented error and zero spawn attempts beyond the allowed ones; spawned => the recorded Command equals the model byte for byte and the child reads exactly the configured stdin.",
+   "Seeded search over host policy / small limits / builder histories (variables, array slots, copies, functions, helpers mutating a captured builder with unused results, builders replaced by assignment, loops, adversarial strings) and two schedules each. Refused => the documented error and zero spawn attempts beyond the allowed ones; spawned => the recorded Command equals the model byte for byte and the child reads exactly the configured stdin.",
    "std::process::Command is a recording stub: that the OS receives what std was given (no shell) is trusted. When a command is both forbidden and invalid either refusal is accepted.",
    "DESIGN.md 3.2"),
  "C02": chk("C02", "memsim",
@@ -55,7 +55,7 @@ CHECKS = {
    "DESIGN.md 3.6"),
  "C11": chk("C11", "vmsim",
    "deterministic simulation with fault injection: seeded operation histories against the real bump/scratch arenas over a simulated kernel VM (mmap/mprotect seam) that chooses where each reservation lands (seeded page offset from a 1 MiB boundary) and refuses chosen commits and reservations; shadow model of live ranges, canaries and pages checked after every operation",
-   "Seeded search over histories of allocate/grow/shrink/reset/decommit/Vec and string growth/nested scratch borrows with injected commit and reserve failures. Placement, bounds, alignment, committed pages, contents of every live block and object, clean failure, decommit watermark, scratch flip/flop and offset restoration are checked after each operation. Sampling, not proof.",
+   "Seeded search over histories of allocate/grow/shrink/deallocate/reset/decommit/Vec and string growth and drop/nested scratch borrows with injected commit and reserve failures. Placement, bounds, alignment, committed pages, contents of every live block and object, clean failure, decommit watermark, scratch flip/flop and offset restoration are checked after each operation. Sampling, not proof.",
    "Real pages; the stub only decides where reservations are placed inside a window it owns, which mmap/mprotect calls fail, and mirrors page state. Caller-contract violations are not issued.",
    "DESIGN.md 3.4"),
  "C12": chk("C12", "poolsim",
